@@ -779,31 +779,65 @@ func (vfs *OrefaFS) Rename(oldname, newname string) error {
 	oAbsPath, _ := vfs.Abs(oldname)
 	nAbsPath, _ := vfs.Abs(newname)
 
-	if oAbsPath == nAbsPath {
-		return nil
-	}
-
 	oDirName, oFileName := avfs.SplitAbs(vfs, oAbsPath)
 	nDirName, nFileName := avfs.SplitAbs(vfs, nAbsPath)
 
-	vfs.mu.RLock()
+	vfs.mu.Lock()
+	defer vfs.mu.Unlock()
+
 	oChild, oChildOk := vfs.nodes[oAbsPath]
 	oParent, oParentOk := vfs.nodes[oDirName]
 	nChild, nChildOk := vfs.nodes[nAbsPath]
 	nParent, nParentOk := vfs.nodes[nDirName]
-	vfs.mu.RUnlock()
 
 	if !oChildOk || !oParentOk || !nParentOk {
 		return &os.LinkError{Op: op, Old: oldname, New: newname, Err: vfs.err.NoSuchFile}
 	}
 
-	if (oChild.mode.IsDir() && nChildOk) || (!oChild.mode.IsDir() && nChildOk && nChild.mode.IsDir()) {
-		err := vfs.err.FileExists
+	if !nParent.mode.IsDir() {
+		return &os.LinkError{Op: op, Old: oldname, New: newname, Err: vfs.err.NotADirectory}
+	}
+
+	oIsDir := oChild.mode.IsDir()
+
+	if oIsDir && strings.HasPrefix(nAbsPath, oAbsPath+string(vfs.PathSeparator())) {
+		// A directory can't be moved to a subdirectory of itself.
+		err := vfs.err.InvalidArgument
 		if vfs.OSType() == avfs.OsWindows {
 			err = avfs.ErrWinAccessDenied
 		}
 
 		return &os.LinkError{Op: op, Old: oldname, New: newname, Err: err}
+	}
+
+	if oAbsPath == nAbsPath && (!oIsDir || vfs.OSType() == avfs.OsWindows) {
+		return nil
+	}
+
+	if nChildOk {
+		nIsDir := nChild.mode.IsDir()
+
+		switch {
+		case nIsDir || oIsDir:
+			// newname can only be replaced by a file, and only if it is not a directory.
+			err := vfs.err.NotADirectory
+			if nIsDir {
+				err = vfs.err.FileExists
+			}
+
+			if vfs.OSType() == avfs.OsWindows {
+				err = avfs.ErrWinAccessDenied
+			}
+
+			return &os.LinkError{Op: op, Old: oldname, New: newname, Err: err}
+		case nChild == oChild:
+			// oldname and newname are hard links to the same file : nothing to do.
+			return nil
+		default:
+			nChild.mu.Lock()
+			nChild.remove()
+			nChild.mu.Unlock()
+		}
 	}
 
 	nParent.mu.Lock()
@@ -814,17 +848,14 @@ func (vfs *OrefaFS) Rename(oldname, newname string) error {
 		defer oParent.mu.Unlock()
 	}
 
-	nParent.children[nFileName] = oChild
+	nParent.addChild(nFileName, oChild)
 
 	delete(oParent.children, oFileName)
-
-	vfs.mu.Lock()
-	defer vfs.mu.Unlock()
 
 	vfs.nodes[nAbsPath] = oChild
 	delete(vfs.nodes, oAbsPath)
 
-	if oChild.mode.IsDir() {
+	if oIsDir {
 		oRoot := oAbsPath + string(vfs.PathSeparator())
 
 		for absPath, node := range vfs.nodes {
